@@ -773,6 +773,10 @@ def op_node_from_onnx_operator(
             attrs = sg.PadAttrsT()
             attrs.mode = attr_reader.get_enum_attr("mode", sg.PadMode, "constant")
 
+            # `pads` and `value` were attributes before opset 11.
+            attr_reader.generate_input_from_attr(1, "pads", "ints")
+            attr_reader.generate_input_from_attr(2, "value", "float")
+
         case "QuantizeLinear":
             attrs = sg.QuantizeLinearAttrsT()
             attrs.axis = attr_reader.get_attr("axis", "int", 1)
